@@ -46,20 +46,27 @@ ListsFrom(U, steps, k, l, acc) ==
 \* Lists[h][k] = installed list after step k of history h, according to the reference
 Lists == [h \in DOMAIN Hists |-> ListsFrom(UU[Hists[h].u], Hists[h].steps, 1, <<>>, <<>>)] \o <<>>
 
+Sets == [h \in DOMAIN Hists |-> [k \in DOMAIN Lists[h] |-> Range(Lists[h][k])] \o <<>>] \o <<>>
+StepIds == UNION {{<<h, k>> : k \in DOMAIN Hists[h].steps} : h \in DOMAIN Hists}
+AllRing == {s \in StepIds : Unis[Hists[s[1]].u].ring}
+
 \* ---- the implementation's deviations run over the same operations (classification only)
-RECURSIVE KFFrom(_, _, _, _, _, _, _, _)
-KFFrom(U, steps, k, n, l, r, lw, ba) ==
+\* owned = TRUE: Remove deletes exactly the points the removed member owns in the map (the repaired Remove of F15,
+\* patches/C13-conhash-remove-by-owner.diff) -- with last-writer ownership still a deviation under collisions.
+RemoveOwned(r, m) == [p \in {q \in DOMAIN r : r[q] # m} |-> r[p]]
+RECURSIVE KFFrom(_, _, _, _, _, _, _, _, _)
+KFFrom(U, steps, k, n, l, r, lw, ba, owned) ==
     IF k > n THEN r
     ELSE IF steps[k].op = "add" THEN
             KFFrom(U, steps, k + 1, n, ListAdd(U, l, steps[k].e),
-                   (IF HasHost(U, l, steps[k].e) THEN r ELSE RingAddP(U, r, steps[k].e, lw)) @@ EmptyRing, lw, ba)
+                   (IF HasHost(U, l, steps[k].e) THEN r ELSE RingAddP(U, r, steps[k].e, lw)) @@ EmptyRing, lw, ba, owned)
     ELSE IF steps[k].op = "remove" THEN
             KFFrom(U, steps, k + 1, n, ListRemove(U, l, steps[k].e),
-                   (IF HasHost(U, l, steps[k].e)
-                    THEN RingRemoveP(U, r, StoredAs(U, l, steps[k].e), steps[k].e,
-                                     Range(ListRemove(U, l, steps[k].e)), lw, ba)
-                    ELSE r) @@ EmptyRing, lw, ba)
-    ELSE KFFrom(U, steps, k + 1, n, ListRefresh(U, steps[k].eps), RingRefreshP(U, steps[k].eps, lw), lw, ba)
+                   (IF ~HasHost(U, l, steps[k].e) THEN r
+                    ELSE IF owned THEN RemoveOwned(r, StoredAs(U, l, steps[k].e))
+                    ELSE RingRemoveP(U, r, StoredAs(U, l, steps[k].e), steps[k].e,
+                                     Range(ListRemove(U, l, steps[k].e)), lw, ba)) @@ EmptyRing, lw, ba, owned)
+    ELSE KFFrom(U, steps, k + 1, n, ListRefresh(U, steps[k].eps), RingRefreshP(U, steps[k].eps, lw), lw, ba, owned)
 
 KFSeq(sorted, r) == SelectSeq(sorted, LAMBDA p : p \in DOMAIN r)
 KFLookup(r, rs, c) == IF rs = <<>> THEN None ELSE r[SuccSeq(rs, c)]
@@ -69,27 +76,41 @@ Pos(rs, c) == IF rs = <<>> THEN "empty"
               ELSE IF SuccSeq(rs, c) = c THEN "at-point"
               ELSE IF LowerBound(rs, c, 1, Len(rs) + 1) > Len(rs) THEN "wrap" ELSE "gap"
 
-ClassOf(i, r, rs, c, ans) ==
+KFName(i) == IF ColOf[i] # {} /\ VarOf[i] # {} THEN "kf-both"
+             ELSE IF ColOf[i] # {} THEN "kf-collision" ELSE "kf-remove-arg"
+\* r/rs: the deviating map as the code maintains it today; r2/rs2: the same with Remove-by-owner
+ClassOf(i, r, rs, r2, rs2, c, ans) ==
     IF ColOf[i] = {} /\ VarOf[i] = {} THEN "plain"
-    ELSE IF KFLookup(r, rs, c) = ans
-         THEN (IF ColOf[i] # {} /\ VarOf[i] # {} THEN "kf-both"
-               ELSE IF ColOf[i] # {} THEN "kf-collision" ELSE "kf-remove-arg")
-         ELSE "plain"
+    ELSE IF KFLookup(r, rs, c) = ans THEN KFName(i)
+    ELSE IF ColOf[i] # {} /\ KFLookup(r2, rs2, c) = ans THEN "kf-collision"
+    ELSE "plain"
 
-RingWrong(U, uni, S, rs, st) == {j \in DOMAIN st.ans : st.ans[j] # LookupSeq(U, rs, uni.codes[j], S)}
+\* wrong: not an owner of the successor point at all
+RingWrong(U, uni, S, rs, st) == {j \in DOMAIN st.ans : st.ans[j] \notin AcceptSeq(U, rs, uni.codes[j], S)}
+\* shared successor point, answered with an owner other than the reference's choice: acceptable unless some
+\* history reaching the same member set answers differently (then routing depends on history)
+RingTie(U, uni, S, rs, st) == {j \in DOMAIN st.ans : /\ st.ans[j] \in AcceptSeq(U, rs, uni.codes[j], S)
+                                                     /\ st.ans[j] # LookupSeq(U, rs, uni.codes[j], S)}
+Conflicts(h, k, j) == \E s \in AllRing : /\ Hists[s[1]].u = Hists[h].u
+                                         /\ Sets[s[1]][s[2]] = Sets[h][k]
+                                         /\ Hists[s[1]].steps[s[2]].ans[j] # Hists[h].steps[k].ans[j]
 
-RingBadRec(h, k, i, U, uni, S, rs, st, J, r, krs) ==
+RingBadRec(h, k, i, U, uni, S, rs, st, J, r, krs, r2, krs2) ==
     {[h |-> h, k |-> k, i |-> j, exp |-> LookupSeq(U, rs, uni.codes[j], S), got |-> st.ans[j],
       pt |-> IF rs = <<>> THEN <<0, 0>> ELSE SuccSeq(rs, uni.codes[j]), pos |-> Pos(rs, uni.codes[j]),
-      member |-> st.ans[j] \in S, cls |-> ClassOf(i, r, krs, uni.codes[j], st.ans[j])] : j \in J}
+      member |-> st.ans[j] \in S, cls |-> ClassOf(i, r, krs, r2, krs2, uni.codes[j], st.ans[j])] : j \in J}
 
-RingBad3(h, k, i, U, uni, S, rs, st, J, r) == RingBadRec(h, k, i, U, uni, S, rs, st, J, r, KFSeq(uni.sorted, r))
+RingBad3(h, k, i, U, uni, S, rs, st, J, r, r2) ==
+    RingBadRec(h, k, i, U, uni, S, rs, st, J, r, KFSeq(uni.sorted, r), r2, KFSeq(uni.sorted, r2))
 RingBad2(h, k, i, U, uni, S, rs, st, J) ==
     IF J = {} THEN {}
+    ELSE IF ColOf[i] = {} /\ VarOf[i] = {} THEN RingBad3(h, k, i, U, uni, S, rs, st, J, EmptyRing, EmptyRing)
     ELSE RingBad3(h, k, i, U, uni, S, rs, st, J,
-                  IF ColOf[i] = {} /\ VarOf[i] = {} THEN EmptyRing
-                  ELSE KFFrom(U, Hists[h].steps, 1, k, <<>>, EmptyRing, ColOf[i] # {}, VarOf[i] # {}))
-RingBad1(h, k, i, U, uni, S, rs, st) == RingBad2(h, k, i, U, uni, S, rs, st, RingWrong(U, uni, S, rs, st))
+                  KFFrom(U, Hists[h].steps, 1, k, <<>>, EmptyRing, ColOf[i] # {}, VarOf[i] # {}, FALSE),
+                  KFFrom(U, Hists[h].steps, 1, k, <<>>, EmptyRing, ColOf[i] # {}, FALSE, TRUE))
+RingBad1(h, k, i, U, uni, S, rs, st) ==
+    RingBad2(h, k, i, U, uni, S, rs, st,
+             RingWrong(U, uni, S, rs, st) \cup {j \in RingTie(U, uni, S, rs, st) : Conflicts(h, k, j)})
 RingBad(h, k, i, U, uni, l, st) == RingBad1(h, k, i, U, uni, Range(l), RingSeq(U, uni.sorted, Range(l)), st)
 
 ModBad(h, k, uni, l, st) ==
@@ -101,8 +122,6 @@ StepBad(h, k) ==
     IF Unis[Hists[h].u].ring
     THEN RingBad(h, k, Hists[h].u, UU[Hists[h].u], Unis[Hists[h].u], Lists[h][k], Hists[h].steps[k])
     ELSE ModBad(h, k, Unis[Hists[h].u], Lists[h][k], Hists[h].steps[k])
-
-StepIds == UNION {{<<h, k>> : k \in DOMAIN Hists[h].steps} : h \in DOMAIN Hists}
 
 Bad == UNION {StepBad(s[1], s[2]) : s \in StepIds}
 
@@ -137,7 +156,6 @@ DiffJudged == Cardinality({s \in RingSteps :
                   DiffKind(Range(Lists[s[1]][s[2] - 1]), Range(Lists[s[1]][s[2]])) # "other"})
 
 \* ---- two histories (two clients) with the same member set agree on every code
-AllRing == {s \in StepIds : Unis[Hists[s[1]].u].ring}
 Disagree == {p \in AllRing \X AllRing :
                 /\ p[1][1] < p[2][1]
                 /\ Hists[p[1][1]].u = Hists[p[2][1]].u
